@@ -288,11 +288,24 @@ func (c *specCtx) lookupLocal(name string) *types.Var {
 	if c.st == nil {
 		return nil
 	}
+	// variables declared in the function under contract win over same-named locals of inlined callees
+	var lo, hi token.Pos
+	if c.fr != nil && c.fr.top != nil && c.fr.top.fn != nil && c.fr.top.fn.Decl != nil {
+		lo, hi = c.fr.top.fn.Decl.Pos(), c.fr.top.fn.Decl.End()
+	}
+	inTop := func(v *types.Var) bool { return lo != 0 && lo <= v.Pos() && v.Pos() < hi }
 	for v := range c.st.vars {
 		if v.Name() != name {
 			continue
 		}
-		if best == nil || v.Pos() > best.Pos() {
+		switch {
+		case best == nil:
+			best = v
+		case inTop(v) != inTop(best):
+			if inTop(v) {
+				best = v
+			}
+		case v.Pos() > best.Pos():
 			best = v
 		}
 	}
@@ -876,6 +889,14 @@ func (fr *Frame) havocModItem(st *State, m *SExpr, b map[string]*SVal, pkgPath s
 	if m.Kind != "sel" {
 		panic(specErr{"modifies item must be a field path or ghost variable: " + m.String()})
 	}
+	if owner, fs := e.typeWideMod(m, b, pkgPath); fs != nil {
+		// `modifies T.f`: field f of every object of type T
+		for _, f := range fs {
+			key := e.fieldKey(owner, f)
+			st.heap[key] = Fresh("hw$"+f.Name(), e.Heap(st, key, e.fieldHeapSort(f)).S)
+		}
+		return
+	}
 	base := fr.evalSpecPkg(st, m.Args[0], b, nil, pkgPath)
 	bt := base.Ty
 	if bt == nil {
@@ -900,6 +921,38 @@ func (fr *Frame) havocModItem(st *State, m *SExpr, b map[string]*SVal, pkgPath s
 	if !found {
 		panic(specErr{"stale-contract: modifies names unknown field " + m.String()})
 	}
+}
+
+// typeWideMod recognises a modifies item `T.f` / `T.*` whose base is a named struct type of the package
+// (not a parameter or bound name): it denotes the field in every object of that type.
+func (e *Engine) typeWideMod(m *SExpr, b map[string]*SVal, pkgPath string) (string, []*types.Var) {
+	if m.Kind != "sel" || len(m.Args) == 0 || m.Args[0].Kind != "id" {
+		return "", nil
+	}
+	name := m.Args[0].Name
+	if _, bound := b[name]; bound {
+		return "", nil
+	}
+	p := e.pkgs[pkgPath]
+	if p == nil {
+		return "", nil
+	}
+	tn, ok := p.Types.Scope().Lookup(name).(*types.TypeName)
+	if !ok {
+		return "", nil
+	}
+	stt, ok := tn.Type().Underlying().(*types.Struct)
+	if !ok {
+		return "", nil
+	}
+	var fs []*types.Var
+	for i := 0; i < stt.NumFields(); i++ {
+		f := stt.Field(i)
+		if (m.Name == "STAR" || f.Name() == m.Name) && !isSyncType(f.Type()) && !isStructVal(f.Type()) {
+			fs = append(fs, f)
+		}
+	}
+	return typeName(tn.Type()), fs
 }
 
 func (fr *Frame) havocField(st *State, ref *Term, owner string, f *types.Var) {
